@@ -372,6 +372,7 @@ func (fr *frame) unop(x *ssa.UnOp) Val {
 		}
 	case token.ARROW:
 		fr.u.note("%s: channel receive yields an unconstrained value", fr.fn.Name())
+		fr.chanBlock("channel receive", x.Pos())
 		if x.CommaOk {
 			tup := x.Type().(*types.Tuple)
 			return Val{typ: x.Type(), tup: []Val{fr.freshOfType("recv", tup.At(0).Type()), fr.freshOfType("recvok", tup.At(1).Type())}}
